@@ -385,6 +385,27 @@ fn sweep_cases(seed: u64, tier: &str, bins: &Binaries, scratch: Option<&str>) ->
             }
         }
     }
+    // (e2) the file's name must not matter; a path followed by more text on stdin is not the planned path
+    {
+        let lines = vec!["a1".to_string(), "b,2".to_string()];
+        let content = frame(&lines, 0, true, &mut rng);
+        for name in FILE_NAMES {
+            for ch in ["file", "file-via-stdin", "probe"] {
+                let mut c = if ch == "probe" {
+                    make_probe_case(&content, &busy, &mut rng)
+                } else {
+                    make_case(ch, &lines, &content, &busy, &mut rng, true)
+                };
+                c.file_name = name.to_string();
+                c.note = format!("sweep/e2 file name {:?}", name);
+                out.push(Planned { case: c, stratum: "sweep-file-names" });
+            }
+        }
+        let mut c = make_case("file-via-stdin", &lines, &content, &Cfg::default(), &mut rng, true);
+        c.stdin = format!("{}\nsecond line\n", PLANNED_PATH).into_bytes();
+        c.note = "sweep/e2 path followed by a second line on stdin".into();
+        out.push(Planned { case: c, stratum: "sweep-unusable" });
+    }
     // (f) outside the property, logged and never judged: stdin is a terminal; stdout fails hard
     {
         let mut c = make_case("stdin", &["a".to_string()], b"a\n", &Cfg::default(), &mut rng, true);
@@ -476,6 +497,9 @@ fn random_case(rng: &mut Rng) -> Planned {
             }
             if rng.chance(1, 6) {
                 c.tty_out = true;
+            }
+            if rng.chance(1, 3) {
+                c.file_name = rng.pick(FILE_NAMES).to_string();
             }
             c.note = "search".into();
             return Planned { case: c, stratum: if hard { "search-hard" } else { "search-benign" } };
@@ -928,7 +952,7 @@ fn mode_run(args: &[String]) -> i32 {
         *expect_kinds.entry(ek).or_insert(0) += 1;
         let nontriv = !d.obs.fired.is_empty() || d.obs.reads_r0 + d.obs.reads_rf >= 2;
         if nontriv {
-            let fp = fnv1a(format!("{:?}|{:?}|{:?}|{:?}|{:?}|{:?}|{:?}", d.case.argv, d.case.stdin, d.case.file, d.case.events, d.case.dchunk, d.case.file_mode, (&d.case.env, d.case.tty_out)).as_bytes());
+            let fp = fnv1a(format!("{:?}|{:?}|{:?}|{:?}|{:?}|{:?}|{:?}", d.case.argv, d.case.stdin, d.case.file, d.case.events, d.case.dchunk, d.case.file_mode, (&d.case.env, d.case.tty_out, &d.case.file_name)).as_bytes());
             nontrivial.insert(fp);
         }
         // reach probes
